@@ -851,6 +851,7 @@ fn emit_item(
         "out_line_end": em.line - 1,
         "rewrites": rewrites,
         "template_line": spec.tmpl_line,
+        "contract": fnv64(&norm(&spec.sig.iter().map(|l| match l.find("// @obl") { Some(i) => l[..i].to_string(), None => l.clone() }).collect::<Vec<_>>().join(" "))),
     }));
 }
 
